@@ -51,6 +51,9 @@ WrapShapes == { <<"k0">>, <<"k0", "k1">>, <<"k0", "k1", "k2">>, <<"k0", "arr", "
                 <<"k0", "k1", "k2", "k0", "k1">>, <<"k0", "arr", "k1", "arr", "k2", "k0">>, <<"arr", "k0", "k1">> }
 DeepObj == {Wrap(n, w) : n \in LeafObjs, w \in WrapShapes}
 
+(* arrays of scalars under 1..6 levels of keys / array elements (index bookkeeping on long paths) *)
+DeepArr == {Wrap(Arr(t), w) : t \in TuplesUpTo({N1, N2}, 3), w \in WrapShapes}
+
 (* arrays of keyed objects {id, v} with unique ids, plus at most one non-object member *)
 KObj(i, x) == O2("id", i, "v", x)
 KeyedMembers == {KObj(i, x) : i \in {N1, N2, N3}, x \in {N1, N2}}
